@@ -100,7 +100,7 @@ func inSearchRect(lat1, lon1, lat2, lon2, r float64) bool {
 // RStep is one write. Col 0 = the fenced collection ("fleet"), 1 = the other
 // collection (the roam target when the case is not SameKey, else unrelated).
 type RStep struct {
-	Op   string  `json:"op"` // set del drop pdel(all ids) setex(SET .. EX 0.05, then wait for the expiry)
+	Op   string  `json:"op"` // set del drop pdel(all ids) setex(SET .. EX 0.05, then wait for the expiry) redef
 	Col  int     `json:"col"`
 	ID   string  `json:"id"`
 	Lat  float64 `json:"lat,omitempty"`
@@ -111,9 +111,22 @@ type RStep struct {
 	// spelling of the (numerically identical) coordinates: 0 canonical, 1 with
 	// trailing zeros, 2 exponent form. Extra adds "field" (FIELD speed n) or "ex"
 	// (EX 1000) to the SET.
-	Reset bool   `json:"reset,omitempty"`
-	Alt   int    `json:"alt,omitempty"`
-	Extra string `json:"extra,omitempty"`
+	// Shape: an extended object (rect = BOUNDS, poly = GeoJSON triangle, line =
+	// GeoJSON LineString along the diagonal) with bounding box Box = minlat,
+	// minlon, maxlat, maxlon; Lat/Lon hold the centre of that box, which is
+	// what every distance of a roaming fence is measured to.
+	Shape string    `json:"shape,omitempty"`
+	Box   []float64 `json:"box,omitempty"`
+	// redef: the roaming channel + webhook are re-defined under their names;
+	// Variant identical | radius | pattern | nodwell, N* = definition in force
+	// from the acknowledgement on
+	Variant  string  `json:"variant,omitempty"`
+	NPattern string  `json:"npattern,omitempty"`
+	NRadius  float64 `json:"nradius,omitempty"`
+	NNoDwell bool    `json:"nnodwell,omitempty"`
+	Reset    bool    `json:"reset,omitempty"`
+	Alt      int     `json:"alt,omitempty"`
+	Extra    string  `json:"extra,omitempty"`
 }
 
 // coordText writes f in one of three spellings that parse to the same float64.
@@ -190,6 +203,24 @@ type rmodel struct {
 	cols [2]map[string]pos
 	// sizes of the old / new neighbourhood of the last fenced SET (evidence)
 	lastOldN, lastNewN int
+	boxes              [2]map[string][]float64 // bounding boxes of the extended objects (evidence)
+}
+
+// coveringFar counts extended objects of the roam collection whose bounding
+// box contains p while their centre lies beyond the radius.
+func (m *rmodel) coveringFar(p pos) int {
+	rc := 1
+	if m.cs.SameKey {
+		rc = 0
+	}
+	n := 0
+	for id, b := range m.boxes[rc] {
+		c, ok := m.cols[rc][id]
+		if ok && p.lat >= b[0] && p.lat <= b[2] && p.lon >= b[1] && p.lon <= b[3] && haversine(p.lat, p.lon, c.lat, c.lon) > m.cs.Radius {
+			n++
+		}
+	}
+	return n
 }
 
 func globOK(pat, id string) bool {
@@ -233,6 +264,17 @@ func (m *rmodel) neighbours(id string, p pos) map[string]float64 {
 // apply executes a step on the model and returns the expected entries.
 func (m *rmodel) apply(s RStep) []entry {
 	m.lastOldN, m.lastNewN = 0, 0
+	if m.boxes[0] == nil {
+		m.boxes = [2]map[string][]float64{{}, {}}
+	}
+	switch {
+	case s.Op == "drop" || s.Op == "pdel":
+		m.boxes[s.Col] = map[string][]float64{}
+	case s.Shape != "" && len(s.Box) == 4:
+		m.boxes[s.Col][s.ID] = s.Box
+	default:
+		delete(m.boxes[s.Col], s.ID)
+	}
 	col := m.cols[s.Col]
 	switch s.Op {
 	case "drop":
@@ -349,7 +391,8 @@ type rgen struct {
 	rt      *rapid.T
 	cs      *RoamCase
 	cols    [2]map[string]pos
-	lastOld *pos // previous position of the object moved last (still relevant to a late live evaluation)
+	radius  float64 // radius in force (re-definitions change it)
+	lastOld *pos    // previous position of the object moved last (still relevant to a late live evaluation)
 }
 
 // clear: is p at a safe relative distance (|d/r-1| >= 1e-4) from every object
@@ -364,7 +407,7 @@ func (g *rgen) clear(col int, id string, p pos) bool {
 				continue
 			}
 			d := haversine(p.lat, p.lon, op.lat, op.lon)
-			if math.Abs(d/g.cs.Radius-1) < 1e-4 {
+			if math.Abs(d/g.radius-1) < 1e-4 {
 				return false
 			}
 		}
@@ -379,6 +422,7 @@ func (g *rgen) add(s RStep) {
 		g.lastOld = &o
 	}
 	switch s.Op {
+	case "redef":
 	case "del", "setex":
 		delete(g.cols[s.Col], s.ID)
 	case "drop", "pdel":
@@ -394,6 +438,7 @@ func genRoam(rt *rapid.T, maxSteps int) RoamCase {
 	cs.SameKey = pct(rt, "same-key") < 55
 	cs.NoDwell = rapid.Bool().Draw(rt, "nodwell")
 	cs.Radius = math.Round(math.Exp(unif(rt, "radius", math.Log(200), math.Log(50000))))
+	g.radius = cs.Radius
 	cs.Pattern = pick(rt, "pattern", []string{"*", "*", "t*", "t*", "t2", "[tu]1", "u?"})
 	if pct(rt, "match") < 25 {
 		cs.Match = pick(rt, "glob", []string{"t*", "*1", "*"})
@@ -416,15 +461,15 @@ func genRoam(rt *rapid.T, maxSteps int) RoamCase {
 			return
 		}
 		for k := 0; k < 16; k++ {
-			la, lo := destination(base.lat, base.lon, float64(100+60*(k/4))*cs.Radius, []float64{90, 270, 0, 180}[k%4])
+			la, lo := destination(base.lat, base.lon, float64(100+60*(k/4))*g.radius, []float64{90, 270, 0, 180}[k%4])
 			p := pos{round8(la), round8(lo)}
 			if math.Abs(p.lat) > 80 || math.Abs(p.lon) > 175 {
 				continue
 			}
-			ok := g.lastOld == nil || haversine(p.lat, p.lon, g.lastOld.lat, g.lastOld.lon) > 5*cs.Radius
+			ok := g.lastOld == nil || haversine(p.lat, p.lon, g.lastOld.lat, g.lastOld.lon) > 5*g.radius
 			for c := 0; c < 2; c++ {
 				for _, op := range g.cols[c] {
-					ok = ok && haversine(p.lat, p.lon, op.lat, op.lon) > 5*cs.Radius
+					ok = ok && haversine(p.lat, p.lon, op.lat, op.lon) > 5*g.radius
 				}
 			}
 			if ok {
@@ -461,14 +506,79 @@ func genRoam(rt *rapid.T, maxSteps int) RoamCase {
 			}
 			ratio := pick(rt, "ratio", ratios) * (1 + unif(rt, "ratio-jitter", -0.0004, 0.0004))
 			brg := pick(rt, "bearing", bearings) + unif(rt, "bearing-jitter", -3, 3)
-			la, lo := destination(a.lat, a.lon, ratio*cs.Radius, brg)
+			la, lo := destination(a.lat, a.lon, ratio*g.radius, brg)
 			p := pos{round8(la), round8(lo)}
+			if op == "shape" {
+				// an extended object around p: half height from metres to many radii,
+				// narrow corridors and wide districts; its centre is the centre of
+				// the (rounded) bounding box, computed exactly as the server does
+				hh := pick(rt, "shape-size", []float64{0.001, 0.05, 0.5, 1.5, 4, 12}) * g.radius / 111195
+				hw := hh * pick(rt, "shape-aspect", []float64{0.2, 1, 5}) / math.Cos(p.lat*math.Pi/180)
+				box := []float64{round8(p.lat - hh), round8(p.lon - hw), round8(p.lat + hh), round8(p.lon + hw)}
+				if box[0] < -84 || box[2] > 84 || box[1] < -178 || box[3] > 178 {
+					continue
+				}
+				c := pos{(box[0] + box[2]) / 2, (box[1] + box[3]) / 2}
+				if g.clear(col, id, c) {
+					g.add(RStep{Op: "set", Col: col, ID: id, Lat: c.lat, Lon: c.lon, Shape: pick(rt, "shape", []string{"rect", "poly", "line"}), Box: box,
+						Note: fmt.Sprintf("extended object %s d/r=%.4f brg=%.1f half-height %.3g r", an, ratio, brg, hh*111195/g.radius)})
+					placed = true
+				}
+				continue
+			}
 			if g.clear(col, id, p) {
 				g.add(RStep{Op: op, Col: col, ID: id, Lat: p.lat, Lon: p.lon, Note: fmt.Sprintf("%s d/r=%.4f brg=%.1f", an, ratio, brg)})
 				placed = true
 			}
 		}
 		return placed
+	}
+	sceneryIDs := []string{"tz1", "tz2", "zz1", "zz2", "t8", "u8"}
+	// redefine: the roaming channel and webhook are issued again under their names
+	curPattern, curNoDwell := cs.Pattern, cs.NoDwell
+	redefine := func() {
+		st := RStep{Op: "redef", Variant: pick(rt, "redef-variant", []string{"identical", "radius", "radius", "pattern", "nodwell"}),
+			NPattern: curPattern, NRadius: g.radius, NNoDwell: curNoDwell}
+		switch st.Variant {
+		case "radius":
+			ok := false
+			for _, f := range []float64{pick(rt, "redef-factor", []float64{0.5, 0.8, 1.25, 2}), 1.1, 0.9} {
+				nr := math.Round(g.radius * f)
+				if nr < 100 || nr == g.radius {
+					continue
+				}
+				ok = true
+				var all []pos
+				for c := 0; c < 2; c++ {
+					for _, p := range g.cols[c] {
+						all = append(all, p)
+					}
+				}
+				if g.lastOld != nil {
+					all = append(all, *g.lastOld)
+				}
+				for i := range all {
+					for j := i + 1; j < len(all); j++ {
+						if d := haversine(all[i].lat, all[i].lon, all[j].lat, all[j].lon); math.Abs(d/nr-1) < 1e-4 {
+							ok = false
+						}
+					}
+				}
+				if ok {
+					st.NRadius = nr
+					break
+				}
+			}
+			if !ok {
+				st.Variant, st.NNoDwell = "nodwell", !curNoDwell
+			}
+		case "pattern":
+			st.NPattern = pick(rt, "redef-pattern", []string{"*", "t*", "t2", "[tu]1", "u?", "T*"})
+		case "nodwell":
+			st.NNoDwell = !curNoDwell
+		}
+		curPattern, curNoDwell, g.radius = st.NPattern, st.NNoDwell, st.NRadius
+		g.add(st)
 	}
 	idsOf := func(col int) []string {
 		if col == 1 {
@@ -493,7 +603,7 @@ func genRoam(rt *rapid.T, maxSteps int) RoamCase {
 		for i := 0; i < crowd; i++ {
 			id := fmt.Sprintf("t%02d", 10+i)
 			for try := 0; try < 5; try++ {
-				la, lo := destination(base.lat, base.lon, crowdR*cs.Radius*math.Sqrt(unif(rt, "crowd-d", 0, 1)), unif(rt, "crowd-b", 0, 360))
+				la, lo := destination(base.lat, base.lon, crowdR*g.radius*math.Sqrt(unif(rt, "crowd-d", 0, 1)), unif(rt, "crowd-b", 0, 360))
 				p := pos{round8(la), round8(lo)}
 				if g.clear(rc, id, p) {
 					g.add(RStep{Op: "set", Col: rc, ID: id, Lat: p.lat, Lon: p.lon, Note: "crowd"})
@@ -507,7 +617,7 @@ func genRoam(rt *rapid.T, maxSteps int) RoamCase {
 	// hop: a move inside the crowd's disc
 	hop := func(col int, id, note string) bool {
 		for try := 0; try < 6; try++ {
-			la, lo := destination(base.lat, base.lon, math.Min(crowdR, 1.2)*cs.Radius*math.Sqrt(unif(rt, "hop-d", 0, 1)), unif(rt, "hop-b", 0, 360))
+			la, lo := destination(base.lat, base.lon, math.Min(crowdR, 1.2)*g.radius*math.Sqrt(unif(rt, "hop-d", 0, 1)), unif(rt, "hop-b", 0, 360))
 			p := pos{round8(la), round8(lo)}
 			if g.clear(col, id, p) {
 				g.add(RStep{Op: "set", Col: col, ID: id, Lat: p.lat, Lon: p.lon, Note: note})
@@ -598,6 +708,20 @@ func genRoam(rt *rapid.T, maxSteps int) RoamCase {
 				continue
 			}
 		}
+		if !cs.Live && pct(rt, "redef") < 6 {
+			redefine()
+			continue
+		}
+		if pct(rt, "scenery") < 9 {
+			scol := rc
+			if pct(rt, "scenery-col") < 20 {
+				scol = 1 - rc
+			}
+			if place(scol, pick(rt, "scenery-id", sceneryIDs), "shape") {
+				sync(false)
+			}
+			continue
+		}
 		if pct(rt, "remove") < 9 {
 			remove()
 			continue
@@ -623,7 +747,7 @@ func genRoam(rt *rapid.T, maxSteps int) RoamCase {
 				for try := 0; try < 6 && !(rc == 0 && z == id); try++ {
 					ratio := pick(rt, "ratio", ratios) * (1 + unif(rt, "ratio-jitter", -0.0004, 0.0004))
 					brg := pick(rt, "bearing", bearings) + unif(rt, "bearing-jitter", -3, 3)
-					la, lo := destination(cur.lat, cur.lon, ratio*cs.Radius, brg)
+					la, lo := destination(cur.lat, cur.lon, ratio*g.radius, brg)
 					p := pos{round8(la), round8(lo)}
 					if g.clear(rc, z, p) {
 						g.add(RStep{Op: "set", Col: rc, ID: z, Lat: p.lat, Lon: p.lon, Note: fmt.Sprintf("neighbour move before re-set: 0/%s d/r=%.4f brg=%.1f", id, ratio, brg)})
@@ -660,15 +784,52 @@ type rgot struct {
 	Raw                        string
 }
 
+// pointOf returns the centre of the bounding box of a Point, LineString or
+// Polygon (for a Point the point itself) - the position a roaming fence
+// measures distances to.
 func pointOf(raw json.RawMessage) (lat, lon float64, ok bool) {
 	var o struct {
-		Type        string    `json:"type"`
-		Coordinates []float64 `json:"coordinates"`
+		Type        string          `json:"type"`
+		Coordinates json.RawMessage `json:"coordinates"`
 	}
-	if json.Unmarshal(raw, &o) != nil || o.Type != "Point" || len(o.Coordinates) != 2 {
+	if json.Unmarshal(raw, &o) != nil {
 		return 0, 0, false
 	}
-	return o.Coordinates[1], o.Coordinates[0], true
+	var pts [][]float64
+	switch o.Type {
+	case "Point":
+		var c []float64
+		if json.Unmarshal(o.Coordinates, &c) != nil || len(c) != 2 {
+			return 0, 0, false
+		}
+		return c[1], c[0], true
+	case "LineString":
+		if json.Unmarshal(o.Coordinates, &pts) != nil {
+			return 0, 0, false
+		}
+	case "Polygon":
+		var rings [][][]float64
+		if json.Unmarshal(o.Coordinates, &rings) != nil {
+			return 0, 0, false
+		}
+		for _, r := range rings {
+			pts = append(pts, r...)
+		}
+	default:
+		return 0, 0, false
+	}
+	if len(pts) == 0 {
+		return 0, 0, false
+	}
+	minx, miny, maxx, maxy := math.Inf(1), math.Inf(1), math.Inf(-1), math.Inf(-1)
+	for _, p := range pts {
+		if len(p) != 2 {
+			return 0, 0, false
+		}
+		minx, maxx = math.Min(minx, p[0]), math.Max(maxx, p[0])
+		miny, maxy = math.Min(miny, p[1]), math.Max(maxy, p[1])
+	}
+	return (miny + maxy) / 2, (minx + maxx) / 2, true
 }
 
 func parseRoam(raw string) rgot {
@@ -691,7 +852,7 @@ func parseRoam(raw string) rgot {
 	}
 	var ok bool
 	if g.Lat, g.Lon, ok = pointOf(m["object"]); !ok {
-		g.Bad = "object is not a 2-d Point"
+		g.Bad = "object is not a Point / LineString / Polygon"
 		return g
 	}
 	for _, kind := range []string{"nearby", "faraway"} {
@@ -883,6 +1044,18 @@ func runRoam(t failer, c *ev.Collector, cs RoamCase) (info roamInfo) {
 		case s.Extra == "ex":
 			args = append(args, "EX", "1000")
 		}
+		if s.Shape != "" && len(s.Box) == 4 {
+			b := s.Box
+			pt := func(lon, lat float64) string { return "[" + ff(lon) + "," + ff(lat) + "]" }
+			switch s.Shape {
+			case "rect":
+				return append(args, "BOUNDS", ff(b[0]), ff(b[1]), ff(b[2]), ff(b[3]))
+			case "poly":
+				return append(args, "OBJECT", `{"type":"Polygon","coordinates":[[`+pt(b[1], b[0])+","+pt(b[3], b[0])+","+pt(b[1], b[2])+","+pt(b[1], b[0])+`]]}`)
+			default:
+				return append(args, "OBJECT", `{"type":"LineString","coordinates":[`+pt(b[1], b[0])+","+pt(b[3], b[2])+`]}`)
+			}
+		}
 		return append(args, "POINT", coordText(s.Lat, s.Alt), coordText(s.Lon, s.Alt))
 	}
 	// steps that run before the fence exists: its collections are there when
@@ -937,6 +1110,35 @@ func runRoam(t failer, c *ev.Collector, cs RoamCase) (info roamInfo) {
 		if n < cs.Pre {
 			continue
 		}
+		if s.Op == "redef" {
+			if live != nil {
+				panic("harness: redef in a live case")
+			}
+			// let the webhook catch up first: replacing a hook while its sender
+			// goroutine still holds a batch could reorder deliveries
+			want := 0
+			for _, g := range chanAll {
+				want += len(g)
+			}
+			deadline := time.Now().Add(waitBudget())
+			for len(hookSt.snapshot()) < want && time.Now().Before(deadline) {
+				hookSt.wait(time.Until(deadline))
+			}
+			nc := m.cs
+			nc.Pattern, nc.Radius, nc.NoDwell = s.NPattern, s.NRadius, s.NNoDwell
+			ntok := nc.fenceTokens(keys[0], keys[1])
+			for _, cmd := range [][]string{{"SETCHAN", chanName}, {"SETHOOK", hookName, recv.url}} {
+				v, err := ctl.Do(append(cmd, ntok...)...)
+				mustOK(v, err, "re-"+cmd[0]+" "+strings.Join(ntok, " "))
+				if s.Variant == "identical" && (v.Kind != ':' || v.Int != 0) {
+					fail("redef:identical-not-noop", fmt.Sprintf("step %d: re-issuing the identical definition %s answered %s, want 0", n, strings.Join(ntok, " "), v))
+				}
+			}
+			info.labels["redef:"+s.Variant]++
+			m.cs, tok = nc, ntok
+			redefined = true
+			continue
+		}
 		args := buildArgs(n, s)
 		corner := 0
 		v, err := ctl.Do(args...)
@@ -954,6 +1156,10 @@ func runRoam(t failer, c *ev.Collector, cs RoamCase) (info roamInfo) {
 		}
 		before := len(m.cols[s.Col])
 		exp := m.apply(s)
+		if s.Shape != "" {
+			shapes++
+			info.labels["extended-object-set:"+s.Shape]++
+		}
 		if s.Op == "set" && s.Col == 0 && globOK(cs.Match, s.ID) {
 			corner = m.cornerCount(s.ID, pos{s.Lat, s.Lon})
 		}
@@ -1019,7 +1225,7 @@ func runRoam(t failer, c *ev.Collector, cs RoamCase) (info roamInfo) {
 			got = append(got, parseRoam(v.Arr[2].Str))
 		}
 		chanAll = append(chanAll, got)
-		if k, what := compareStep(cs, exp, got, chanName, keys[0], roamKey, &info); k != "" {
+		if k, what := compareStep(m.cs, exp, got, chanName, keys[0], roamKey, &info); k != "" {
 			fail(k, fmt.Sprintf("step %d %s (%s), observer channel, fence %s: %s", n, t38.CmdString(args[2:]), s.Note, strings.Join(tok[2:], " "), what))
 		}
 		// evidence
@@ -1076,13 +1282,25 @@ func runRoam(t failer, c *ev.Collector, cs RoamCase) (info roamInfo) {
 					info.labels["reset-step-with-nearby"]++
 				}
 			}
+			if redefined && nb+fa > 0 {
+				info.labels["step-with-entries-after-a-re-definition"]++
+			}
+			if shapes > 0 && nb+fa > 0 {
+				info.labels["step-with-entries-while-extended-objects-are-stored"]++
+			}
+			if m.coveringFar(pos{s.Lat, s.Lon}) > 0 {
+				info.labels["mover-inside-box-of-extended-object-centred-beyond-radius"]++
+				if nb > 0 {
+					info.labels["...and-nearby-entries-expected"]++
+				}
+			}
 			if removedRoam && nb+fa > 0 {
 				info.labels["step-with-entries-after-roam-collection-was-removed"]++
 				if cs.Pre > 0 {
 					info.labels["...and-fence-created-on-existing-collection"]++
 				}
 			}
-			if (corner > 0 || nb+fa >= 2 || (s.Reset && nb+fa >= 1) || (removedRoam && cs.Pre > 0 && nb+fa >= 1)) && !s.Sync {
+			if (corner > 0 || nb+fa >= 2 || (s.Reset && nb+fa >= 1) || (redefined && nb+fa >= 1) || (shapes > 0 && nb+fa >= 1) || (removedRoam && cs.Pre > 0 && nb+fa >= 1)) && !s.Sync {
 				info.nontriv = append(info.nontriv, fmt.Sprintf("%s|%v|%v|r=%s|%s|c=%d|n=%d|f=%d", cs.Pattern, cs.SameKey, cs.NoDwell, ff(cs.Radius), s.Note, corner, nb, fa))
 			}
 		}
@@ -1132,7 +1350,7 @@ func runRoam(t failer, c *ev.Collector, cs RoamCase) (info roamInfo) {
 					if pi == len(livePending)-1 && len(raw) > 0 {
 						got = append(got, take(len(raw))...) // extras
 					}
-					if k, what := compareStep(cs, e, got, "", keys[0], roamKey, &info); k != "" {
+					if k, what := compareStep(m.cs, e, got, "", keys[0], roamKey, &info); k != "" {
 						fail(k+":live", fmt.Sprintf("step %d, observer live, fence %s: %s", n-len(livePending)+1+pi, strings.Join(tok[2:], " "), what))
 					}
 				}
@@ -1186,7 +1404,7 @@ func runRoam(t failer, c *ev.Collector, cs RoamCase) (info roamInfo) {
 func TestC20_Roam(t *testing.T) {
 	c := ev.New("C20", "roam", "exploration")
 	t.Cleanup(c.Flush)
-	c.Rule("per case one fence NEARBY fleet [MATCH g] FENCE [NODWELL] ROAM key2 pattern meters (key2 = fleet or another collection; pattern *, prefix glob, class glob or exact id; radius 200 m..50 km log-uniform; anywhere |lat|<=70) installed as channel + webhook (+ live connection with a barrier probe in part of the cases); 4..N steps, each SET moves/creates one point object of either collection to a position constructed from an existing object: distance d/r in {0.05,0.3,0.6,0.9,0.999,1.001,1.1,1.2,1.3,1.396,1.45,2.5} (jittered 4e-4) at bearing k*45 deg +-3 (45/135/225/315 with 1<d/r<1.41 = inside the search rectangle but outside the circle), occasionally DEL, and ~20% re-SETs of a fleet object at its exact current coordinates (same text, trailing zeros or exponent spelling; optionally with FIELD or EX), half of them right after a roam-collection object was moved into/out of its radius; in 60% of the cases 2-5 objects are SET before the fence is created (collections exist at creation time); ~9% of the steps remove a whole collection (fleet or the roam collection) by DROP, PDEL * or DEL down to the last object (rarely followed by a single SET EX 0.05 that expires) and re-populate it; 9% of the cases with pattern * or t* are crowd cases: 1,2,3,7,8,9,10,12,16,17,20,24,32,33,48,64 or 70 neighbours are placed uniformly in a disc of 0.7..1.7 r in the roam collection before the fence exists, then fleet objects hop around inside the disc (many neighbours dwell, enter and leave in one step) and crowd members move; every position keeps |d/r-1|>=1e-4 to every other object. Oracle: own haversine over the model's positions: nearby = other pattern-matching objects of key2 with d(new)<=r (minus, under NODWELL, those with d(old)<=r), faraway = d(old)<=r and d(new)>r, one message per entry, nothing else, meters = floor(d*1000)/1000 within 1e-3+1e-9 d; compared per step (a PUBLISH sentinel after every write delimits the channel stream). Non-trivial: a step whose new position has >=1 pattern-matching neighbour in the corner region or that yields >=2 entries, or a re-SET in place that yields >=1 entry, or a step with >=1 entry after the roam collection was removed and re-created under a fence that was created on an existing collection; distinct by (pattern, same/other key, NODWELL, radius, construction, counts).")
+	c.Rule("per case one fence NEARBY fleet [MATCH g] FENCE [NODWELL] ROAM key2 pattern meters (key2 = fleet or another collection; pattern *, prefix glob, class glob or exact id; radius 200 m..50 km log-uniform; anywhere |lat|<=70) installed as channel + webhook (+ live connection with a barrier probe in part of the cases); 4..N steps, each SET moves/creates one point object of either collection to a position constructed from an existing object: distance d/r in {0.05,0.3,0.6,0.9,0.999,1.001,1.1,1.2,1.3,1.396,1.45,2.5} (jittered 4e-4) at bearing k*45 deg +-3 (45/135/225/315 with 1<d/r<1.41 = inside the search rectangle but outside the circle), occasionally DEL, and ~20% re-SETs of a fleet object at its exact current coordinates (same text, trailing zeros or exponent spelling; optionally with FIELD or EX), half of them right after a roam-collection object was moved into/out of its radius; in 60% of the cases 2-5 objects are SET before the fence is created (collections exist at creation time); ~9% of the steps remove a whole collection (fleet or the roam collection) by DROP, PDEL * or DEL down to the last object (rarely followed by a single SET EX 0.05 that expires) and re-populate it; 9% of the steps store an extended object (BOUNDS rectangle, Polygon triangle or diagonal LineString; half height 0.001..12 r, aspect 0.2/1/5; ids matching and not matching the pattern) whose box CENTRE sits at a constructed d/r - distances are measured to the centre of an object's bounding box; in non-live cases 6% of the steps re-define the roaming channel and webhook under their names (identical, other radius with all pair margins re-checked, other pattern, NODWELL toggled), the model switching at the acknowledgement; 9% of the cases with pattern * or t* are crowd cases: 1,2,3,7,8,9,10,12,16,17,20,24,32,33,48,64 or 70 neighbours are placed uniformly in a disc of 0.7..1.7 r in the roam collection before the fence exists, then fleet objects hop around inside the disc (many neighbours dwell, enter and leave in one step) and crowd members move; every position keeps |d/r-1|>=1e-4 to every other object. Oracle: own haversine over the model's positions: nearby = other pattern-matching objects of key2 with d(new)<=r (minus, under NODWELL, those with d(old)<=r), faraway = d(old)<=r and d(new)>r, one message per entry, nothing else, meters = floor(d*1000)/1000 within 1e-3+1e-9 d; compared per step (a PUBLISH sentinel after every write delimits the channel stream). Non-trivial: a step whose new position has >=1 pattern-matching neighbour in the corner region or that yields >=2 entries, or a re-SET in place that yields >=1 entry, or a step with >=1 entry after a re-definition or while extended objects are stored, or a step with >=1 entry after the roam collection was removed and re-created under a fence that was created on an existing collection; distinct by (pattern, same/other key, NODWELL, radius, construction, counts).")
 	c.Assume("message order within a step (nearby before faraway, by distance) is not part of the property: labelled, not judged; FSET/EXPIRE on a roam fence are out of scope")
 	maxSteps := ev.Pick(16, 24)
 	ev.Rapid("roam", ev.Pick(2500, 12000))
